@@ -241,6 +241,7 @@ structure Hook where
   needExtra : Bool
   allowRoot : Bool
   cb : Callback
+  deriving DecidableEq
 
 open Sqfs.Consts in
 /-- `file_list_hooks[]` (the `flags` column is not modelled: nothing on the describe path depends on it) -/
